@@ -136,6 +136,8 @@ def sort_of(t):
         return t[3]
     if op in QUANT:
         return BOOL
+    if op == "xnode":
+        return BOOL
     raise ValueError("sort_of: unknown op %r" % (op,))
 
 
@@ -566,6 +568,19 @@ def pretty(t):
 
 # ---------------------------------------------------------------- building into pySMT
 
+_XNODE = [None]
+
+
+def xnode_type():
+    """a custom node type (documented extension API: operators.new_node_type), created
+    once per process; typed Bool x Bool -> Bool through the dynamic-walker API for the
+    type checker only, so every other service meets an unsupported operator"""
+    if _XNODE[0] is None:
+        import pysmt.operators as op
+        _XNODE[0] = op.new_node_type(node_str="XNODE")
+    return _XNODE[0]
+
+
 def to_pysmt_type(sort, env):
     import pysmt.typing as T
     if sort == BOOL:
@@ -666,6 +681,8 @@ def build(t, env, cache=None):
         return mgr.Times(a)
     if op == "toreal":
         return mgr.ToReal(a[0])
+    if op == "xnode":
+        return mgr.create_node(node_type=xnode_type(), args=(a[0], a[1]))
     if op == "/":
         return mgr.Div(a[0], a[1])
     if op == "select":
